@@ -13,6 +13,7 @@ import (
 	"strings"
 	"syscall"
 	"testing"
+	"time"
 
 	"verif/fw"
 	"verif/simrt"
@@ -82,7 +83,11 @@ func scanInodes(dir string) map[uint64]fileState {
 }
 
 func runC08(c *fw.Case) {
-	if desyncBin() != "" && c.Chance(1, 4, "c08.extract") {
+	if desyncBin() != "" && c.Chance(1, procRate(4), "c08.extract") {
+		if c.Bool("c08.traced") {
+			runC08Traced(c)
+			return
+		}
 		runC08Extract(c)
 		return
 	}
@@ -453,5 +458,170 @@ func runC08Extract(c *fw.Case) {
 			}
 		}
 	}
+	c.Outcome("ok")
+}
+
+// ---- C08 (part C): the real binary dies in front of every system call that changes the file system ----
+
+func runC08Traced(c *fw.Case) {
+	c.Probe("process-level-case (real desync binary, ptrace)")
+	sz := sizes{64, 256, 1024}
+	blob := genBlob(c, sz, c.Range(3, 14, "traced.chunks")*int(sz.avg))
+	idx := mkIndex(blob, sz)
+	if len(idx.Chunks) == 0 {
+		c.Outcome("empty")
+		return
+	}
+	dir := c.Dir()
+	src := filepath.Join(dir, "src.store")
+	if err := fillLocalStore(src, blob, idx.Chunks); err != nil {
+		c.HarnessError("%v", err)
+		return
+	}
+	indexFile := filepath.Join(dir, "blob.caibx")
+	writeIndexFile(indexFile, idx)
+	out := filepath.Join(dir, "out")
+	target := filepath.Join(dir, "target.store")
+	blobFile := filepath.Join(dir, "blob")
+	os.WriteFile(blobFile, blob, 0644)
+	n := []string{"1", "1", "3"}[c.Draw(3, "traced.n")]
+	kind := c.Draw(5, "traced.kind")
+	names := []string{"extract", "extract --in-place", "chop", "cache", "make"}
+	var prior []byte
+	switch c.Draw(3, "traced.prior") {
+	case 1:
+		prior = editBlob(c, blob, "prior")
+	case 2:
+		prior = []byte("previous content of the destination\n")
+	}
+	var args []string
+	switch kind {
+	case 0:
+		args = []string{"extract", "-n", n, "-s", src, indexFile, out}
+	case 1:
+		args = []string{"extract", "--in-place", "-n", n, "-s", src, indexFile, out}
+	case 2:
+		args = []string{"chop", "-n", n, "-s", target, indexFile, blobFile}
+	case 3:
+		args = []string{"cache", "-n", n, "-s", src, "-c", target, indexFile}
+	case 4:
+		args = []string{"make", "-n", n, "-m", "1:4:16", "-s", target, filepath.Join(dir, "made.caibx"), blobFile}
+	}
+	if kind == 0 && c.Bool("traced.stats") {
+		args = append([]string{"extract", "--print-stats"}, args[1:]...)
+	}
+	reset := func() {
+		os.RemoveAll(target)
+		os.MkdirAll(target, 0755)
+		os.Remove(filepath.Join(dir, "made.caibx"))
+		if ents, err := os.ReadDir(dir); err == nil {
+			for _, e := range ents {
+				if strings.HasPrefix(e.Name(), ".out") || strings.HasPrefix(e.Name(), ".tmp") || strings.HasPrefix(e.Name(), ".made") {
+					os.Remove(filepath.Join(dir, e.Name()))
+				}
+			}
+		}
+		os.Remove(out)
+		if prior != nil && kind <= 1 {
+			os.WriteFile(out, prior, 0644)
+		}
+	}
+	c.Class(fmt.Sprintf("traced %s n=%s prior=%v", names[kind], n, prior != nil))
+	c.Note("real `desync %s`, killed in front of the k-th file-system call", strings.Join(args, " "))
+	c.NonTrivial()
+	reset()
+	r0, err := runTraced(0, dir, 2*time.Minute, args...)
+	if err != nil {
+		c.HarnessError("%v", err)
+		return
+	}
+	if r0.timeout {
+		c.Probe("procsim-timeout-case-dropped")
+		return
+	}
+	if r0.exit != 0 || r0.signaled {
+		c.Violate("unexpected-error", "desync "+names[kind], "fault-free run under the tracer: exit %d signaled=%v", r0.exit, r0.signaled)
+		return
+	}
+	S := len(r0.points)
+	ks := map[int]bool{}
+	if S <= 50 {
+		for k := 1; k <= S; k++ {
+			ks[k] = true
+		}
+	} else {
+		for k := 1; k <= 4; k++ {
+			ks[k] = true
+		}
+		for k := S - 11; k <= S; k++ {
+			ks[k] = true // the commit steps are at the end
+		}
+		for i := 0; i < 30; i++ {
+			ks[1+c.Draw(S, "traced.k")] = true
+		}
+	}
+	for k := 1; k <= S; k++ {
+		if !ks[k] {
+			continue
+		}
+		reset()
+		r, err := runTraced(k, dir, 2*time.Minute, args...)
+		if err != nil {
+			c.HarnessError("%v", err)
+			return
+		}
+		if r.timeout {
+			c.Probe("procsim-timeout-case-dropped")
+			continue
+		}
+		if !r.signaled {
+			continue // a different interleaving of the threads ended before its k-th call
+		}
+		c.SubEval(1)
+		c.Fault("sigkill-before-syscall")
+		where := fmt.Sprintf("death in front of file-system call %d of %d (%s)", k, S, r.killedAt)
+		switch kind {
+		case 0:
+			got, rerr := os.ReadFile(out)
+			switch {
+			case rerr == nil && bytes.Equal(got, blob):
+				// died after the destination was replaced
+			case prior == nil && os.IsNotExist(rerr):
+			case prior != nil && rerr == nil && bytes.Equal(got, prior):
+			default:
+				c.Violate("destination-touched", "desync extract", "%s: the destination (%d bytes, %v) is neither its previous state (%d bytes, existed=%v) nor the complete blob (%d bytes)", where, len(got), rerr, len(prior), prior != nil, len(blob))
+				return
+			}
+		case 1:
+			exit, _, stderr, err := runDesync(args...)
+			if err != nil {
+				c.HarnessError("%v", err)
+				return
+			}
+			got, _ := os.ReadFile(out)
+			if exit != 0 || !bytes.Equal(got, blob) {
+				c.Violate("resume-wrong", "desync extract --in-place", "%s, then re-run: exit %d, output equals blob: %v: %s", where, exit, bytes.Equal(got, blob), tailBytes(stderr, 200))
+				return
+			}
+		default:
+			if _, why := validateStoreDir(target); why != "" {
+				c.Violate("partial-chunk-visible", "desync "+names[kind], "%s: %s", where, why)
+				return
+			}
+			if k%5 == 0 {
+				exit, _, stderr, err := runDesync(args...)
+				if err != nil {
+					c.HarnessError("%v", err)
+					return
+				}
+				_, why := validateStoreDir(target)
+				if exit != 0 || why != "" {
+					c.Violate("restart-failed", "desync "+names[kind], "%s, then re-run: exit %d %s: %s", where, exit, why, tailBytes(stderr, 200))
+					return
+				}
+			}
+		}
+	}
+	c.Key(S)
 	c.Outcome("ok")
 }
